@@ -199,8 +199,8 @@ CLAIMS = {
              "break, no blank line inside an entry whatever the report contains (report text cannot forge a recipient "
              "paragraph), exactly one closing blank line, every byte written exactly once despite short writes and failures. "
              "del_dochan: every permanent failure (and only those) is recorded with addbounce before the recipient is marked. "
-             "Bounded stand-in: stripvdomprepend (recipients <= 9 bytes): first virtualdomains match decides, prefix- removed "
-             "exactly when the recipient carries it.",
+             "stripvdomprepend() (loop contract, recipient and prefix of any length): virtualdomains candidates = domain, each "
+             ".suffix, catch-all, in order, none skipped, first match decides; prefix- removed exactly when the recipient carries it.",
         note="Bounce loops being impossible follows from the three sender cases by a two-line hand corollary; the text of the "
              "notice is not covered; the stralloc stubs of the addbounce proof append without copying contents (any bytes).",
         design_ref="DESIGN.md section 5 C14"),
